@@ -3,6 +3,7 @@ package chainsim
 import (
 	"bytes"
 	"fmt"
+	"os"
 	"sort"
 	"sync"
 	"time"
@@ -284,6 +285,25 @@ func (m *SyncMonitor) afterStep(n *Node, st *syncStep) {
 	if len(st.rpcs) == 0 {
 		return
 	}
+	if os.Getenv("VERIF_DEBUG_SYNC") == n.Name {
+		fmt.Printf("SYNCDBG %v %s tip %d->%d fin %d: ", m.S.Now(), n.Name, st.startHeight, n.Tip().Height, n.Finalized())
+		for _, r := range st.rpcs {
+			extra := ""
+			if r.proc == csync.RPCEndpointGetHighestCommonBlock {
+				req := &csync.GetHighestCommonBlockRequest{}
+				if req.Decode(r.req) == nil {
+					for _, id := range req.IDs {
+						if h, err := n.Chain.DataAccess().GetBlockHeader(id); err == nil {
+							extra += fmt.Sprintf("%d,", h.Height)
+						}
+					}
+				}
+				extra += fmt.Sprintf(" resp=%d bytes", len(r.resp))
+			}
+			fmt.Printf("%s->%s(err=%v,fault=%d %s) ", r.proc, r.to, r.err, r.fault, extra)
+		}
+		fmt.Println()
+	}
 	first := st.rpcs[0].proc
 	switch first {
 	case csync.RPCEndpointGetLastBlock:
@@ -351,13 +371,16 @@ func (m *SyncMonitor) checkFastSwitch(n *Node, st *syncStep) {
 		if len(st.deletes) > 0 {
 			simkit.Probe("c19_fast_switch_rolled_back")
 			if !m.S.Banned(n.Peer, st.triggerFrom) {
-				m.report("C19", "fast-sync-restore", "peer-not-banned", fmt.Sprintf("%s switched towards block %d/%s served by %s, rolled back to its own tip %d/%s, and did not ban the peer", n.Name, st.trigger.Header.Height, short(st.trigger.Header.ID), st.triggerFrom, st.startHeight, short(st.startTip)))
+				m.report("C19", "fast-sync-restore", "peer-not-banned", fmt.Sprintf("%s switched towards block %d/%s served by %s, rolled back to its own tip %d/%s, and did not ban the peer (events %v; requests %s; log %v)", n.Name, st.trigger.Header.Height, short(st.trigger.Header.ID), st.triggerFrom, st.startHeight, short(st.startTip), st.order, rpcList(st), n.Log.Tail(4)))
 			}
 		} else {
 			simkit.Probe("c19_fast_switch_abandoned_before_deleting")
 		}
 	case bytes.Equal(end, st.trigger.Header.ID):
 		simkit.Probe("c19_fast_switch_completed")
+	case n.Finalized() >= n.Tip().Height && len(st.news) > 0:
+		// the downloaded blocks applied so far finalized one of themselves: the roll-back legitimately stops there
+		simkit.Probe("c19_fast_switch_rollback_stopped_at_newly_finalized_block")
 	default:
 		m.report("C19", "fast-sync-restore", "neither-old-nor-new", fmt.Sprintf("%s started a fast chain switch on tip %d/%s towards block %d/%s from %s and ended on %d/%s, which is neither (deleted %d, added %d blocks in the step: %v)",
 			n.Name, st.startHeight, short(st.startTip), st.trigger.Header.Height, short(st.trigger.Header.ID), st.triggerFrom, n.Tip().Height, short(end), len(st.deletes), len(st.news), st.order))
@@ -426,5 +449,13 @@ func (w *World) AddPhantoms(k int) []*PhantomPeer {
 		w.S.At(3*time.Second, "phantom tips", redraw)
 	}
 	w.S.At(time.Second, "phantom tips", redraw)
+	return out
+}
+
+func rpcList(st *syncStep) string {
+	out := ""
+	for _, r := range st.rpcs {
+		out += fmt.Sprintf("%s->%s(err=%v,fault=%d) ", r.proc, r.to, r.err, r.fault)
+	}
 	return out
 }
